@@ -232,10 +232,17 @@ decreasing_by simp [List.length_drop]; omega
 /-- `bin_edge = ceil(T / bins)` -/
 def binEdge (T bins : Nat) : Nat := (T + bins - 1) / bins
 
+/-- `edges = numpy.sort(row)[::bin_edge]` -/
+def quantileEdges (row : List Rat) (bins : Nat) : List Rat :=
+  everyNth (binEdge row.length bins) (sortAsc row)
+
+/-- `(x >= edges).sum() - 1` -/
+def quantileSym (edges : List Rat) (x : Rat) : Int :=
+  ((edges.filter (fun e => decide (e ≤ x))).length : Int) - 1
+
 /-- symbols of one row: `(x >= edges).sum() - 1` with `edges = sort(row)[::bin_edge]` -/
 def quantileBinRow (row : List Rat) (bins : Nat) : List Int :=
-  let edges := everyNth (binEdge row.length bins) (sortAsc row)
-  row.map fun x => ((edges.filter (fun e => decide (e ≤ x))).length : Int) - 1
+  row.map (quantileSym (quantileEdges row bins))
 
 /-- `bincount_hist` for `D = 2`: entry `[a][b]` of the returned (transposed) array is the
 number of samples with `symb[0] = a`, `symb[1] = b`; computed through
